@@ -306,20 +306,21 @@ class DiskFile(VirtualFileContainer):
 
                 preamble.read(self.buffer, self.seek_granule(starting_granule.int))
 
+                # The file occupies its granules in the order the FAT chains them, which
+                # need not be the order they have on the disk
+                file_stream = self.read_chain(starting_granule.int, fat)
+
                 data_length = preamble.data_length.int
-                if data_length == 0:
+                if preamble.length == 0:
                     data_length = self.calculate_file_length(starting_granule.int, fat, bytes_in_last_sector.int)
 
-                file_data, post_pointer = self.read_data(
-                    starting_granule.int,
-                    fat,
-                    preamble=preamble,
-                    data_length=data_length,
-                )
+                file_data = file_stream[preamble.length:preamble.length + data_length]
+                if len(file_data) < data_length:
+                    raise VirtualFileValidationError("Unable to read data - insufficient bytes in granule chain")
 
                 if preamble.is_ml():
                     postamble = Postamble()
-                    postamble.read(self.buffer, post_pointer)
+                    postamble.read(file_stream, preamble.length + data_length)
                     exec_addr = postamble.exec_addr
 
                 coco_file = CoCoFile(
@@ -507,6 +508,29 @@ class DiskFile(VirtualFileContainer):
         if granule > 33:
             granule_offset += DiskConstants.HALF_TRACK_LEN * 2
         return granule_offset
+
+    def read_chain(self, granule, fat):
+        """
+        Follows the chain of granules that starts at the specified granule through
+        the File Allocation Table, and returns the contents of those granules
+        in chain order.
+
+        :param granule: the first granule of the file
+        :param fat: the File Allocation Table data for the disk
+        :return: the contents of all the granules allocated to the file
+        """
+        file_stream = []
+        visited = []
+        while True:
+            if granule >= DiskConstants.TOTAL_GRANULES or granule in visited:
+                raise VirtualFileValidationError("Invalid granule chain in file allocation table")
+            visited.append(granule)
+            pointer = self.seek_granule(granule)
+            file_stream.extend(self.buffer[pointer:pointer + DiskConstants.HALF_TRACK_LEN])
+            fat_entry = fat[granule]
+            if (fat_entry & 0xC0) == 0xC0:
+                return file_stream
+            granule = fat_entry
 
     def read_data(self, starting_granule, fat, preamble, data_length=0):
         """
